@@ -293,6 +293,9 @@ def main(argv=None):
     ap.add_argument('--jobs', type=int,
                     default=int(os.environ.get('VERIF_JOBS', '0')) or
                     min(16, os.cpu_count() or 1))
+    ap.add_argument('--only', default='',
+                    help='debug: run only shards whose repr contains this '
+                         'text (evidence then says exhaustive=false)')
     ap.add_argument('--max-shards', type=int, default=0,
                     help='debug: run only the first N shards (evidence '
                          'then says exhaustive=false)')
@@ -328,6 +331,9 @@ def main(argv=None):
     # 2. exploration
     shards = list(mod.shards(tier, seed))
     capped = False
+    if args.only:
+        shards = [sh for sh in shards if args.only in repr(sh)]
+        capped = True
     if args.max_shards and len(shards) > args.max_shards:
         shards = shards[:args.max_shards]
         capped = True
